@@ -23,8 +23,9 @@ def load(config):
     w = WS()
     w.config = config
     w.fs = fs
-    w.U = model.Universe(fs)
-    w.crates = [c for c in fs.crates if is_modelled(c)]
+    cand = fs.select(lambda n, t: (not t and n != "qty_macros") or (t and n not in facts.LIB_CRATES))
+    w.crates = [c for c in cand if is_modelled(c)]
+    w.U = model.Universe(fs, w.crates)
     w.qtypes = []
     for c in w.crates:
         for q in w.U.qtypes(c):
